@@ -62,7 +62,6 @@ func drive(d *mon.Driver, replay string) int {
 		"cross-mount Rename/Symlink may be refused; relative Chdir semantics are not part of the statement (cwd is set with WithCwd or an absolute Chdir)",
 		"the worker chroots into its sentinel tree so that a broken filesystem under test cannot damage the machine; this does not change which host paths the code computes",
 	}
-	start := time.Now()
 	var plan []planned
 	var stracePlan []planned
 
@@ -143,6 +142,7 @@ func drive(d *mon.Driver, replay string) int {
 		d.Extra("path_space_max_segments", N)
 		d.Extra("path_space_tuples", ps.Count())
 		d.Extra("exhaustive", true)
+		d.Extra("exhaustive_scope", fmt.Sprintf("every string over the segment alphabet with 1..%d segments (absolute/relative, with/without trailing separator) x every operation slot, for the localfs base spelled cleanly and for every virtual-OS layout x cwd; the other four spellings of the base use 1..%d segments; random non-alphabet paths and the strace sample are seed-determined samples", N, n2))
 	}
 
 	// the workers' sentinel trees live on a tmpfs when there is one (an order of magnitude less system
@@ -201,6 +201,7 @@ func drive(d *mon.Driver, replay string) int {
 	}
 
 	keybuf := make([]byte, 0, 32)
+	sampled := map[string]int{}
 	var pathStrings int64
 	judge := func(c mon.Case, res mon.Result, hits []straceHit, sst *straceStats) {
 		var lc lfsCase
@@ -212,6 +213,16 @@ func drive(d *mon.Driver, replay string) int {
 		}
 		if res.Status == "timeout" {
 			d.Inconclusive("watchdog timeout in case " + c.ID)
+			return
+		}
+		if res.Status != "done" && lc.Strace {
+			// the same paths run untraced in the main pool, where a real crash is attributed; here the
+			// likeliest cause is the tracer itself (strace missing, ptrace not permitted)
+			note := "strace-wrapped worker did not finish, case " + c.ID
+			if res.Crash != nil {
+				note += ": " + res.Crash.Exit + " " + mon.Truncate(res.Crash.StderrTail, 300)
+			}
+			d.Inconclusive(note)
 			return
 		}
 		if res.Status != "done" {
@@ -263,7 +274,11 @@ func drive(d *mon.Driver, replay string) int {
 			}
 		}
 		for _, s := range o.Samples {
-			d.Sample(s)
+			// at most three samples of one half, so that both halves show in the evidence
+			if sampled[c.Kind] < 3 && sampled["lfs"]+sampled["vos"] < 5 && (c.Kind == "vos" || sampled["lfs"] < 2 || sampled["vos"] > 0) {
+				sampled[c.Kind]++
+				d.Sample(s)
+			}
 		}
 		report := func(v viol, strace bool) {
 			rc := replayCase{Half: c.Kind}
@@ -377,14 +392,13 @@ func drive(d *mon.Driver, replay string) int {
 	sort.Strings(ln)
 	d.Extra("vos_layouts", ln)
 	d.Extra("vos_configs", len(allConfigs()))
-	_ = start
 	if len(sigCount) > 0 {
 		var sigs []string
 		for s := range sigCount {
 			sigs = append(sigs, s)
 		}
 		sort.Strings(sigs)
-		fmt.Println("violation signatures (count):")
+		fmt.Println("signatures observed (occurrences; listed findings included):")
 		for _, s := range sigs {
 			fmt.Printf("  %-70s %d\n", s, sigCount[s])
 			if os.Getenv("VERIF_C13_EXAMPLES") != "" {
